@@ -46,6 +46,7 @@ func wire(e protocol.EUI) []byte {
 type forcedUplink struct {
 	d         *simDev
 	confirmed bool
+	submit    bool // not an uplink: an unconfirmed message of ordinary size is queued for d
 }
 
 type seqHistory struct {
@@ -278,6 +279,9 @@ func runPipeSeq(c *ctx) error {
 			perturb := r.Intn(8)
 			if forcedUp != nil {
 				ek, perturb = 0, 7
+				if forcedUp.submit {
+					ek = 12
+				}
 			}
 			switch {
 			case ek < 9 && d.joined: // valid uplink
@@ -461,10 +465,16 @@ func runPipeSeq(c *ctx) error {
 			case ek < 14: // queue a downlink message through the API object
 				n := 1 + r.Intn(60)
 				overLong := r.Intn(8) == 0
+				if forcedUp != nil {
+					overLong, n = false, 1+r.Intn(20)
+				}
 				if overLong {
 					n = 55 + r.Intn(200) // around and over the payload limits of the data rates (59 / 123 / 230)
 				}
 				m := queuedMsg{created: h.ts, port: 1 + r.Intn(223), data: r.Bytes(n), ack: r.Intn(2) == 0}
+				if forcedUp != nil {
+					m.ack = false
+				}
 				if lc, ok := h.lastCreated[d.eui]; (!ok || lc != h.lastCreatedAny) && h.lastCreatedAny != 0 && r.Intn(3) == 0 {
 					// the same creation stamp as the last message queued for another device (a fan-out within one
 					// millisecond): the queue is keyed by device and stamp, the devices have nothing to do with each other
@@ -484,7 +494,11 @@ func runPipeSeq(c *ctx) error {
 				if err == nil {
 					h.lastCreated[d.eui], h.lastCreatedAny = m.created, m.created
 					if overLong && n > 60 && d.joined && len(forcedUps) == 0 {
-						forcedUps = append(forcedUps, forcedUplink{d, true}, forcedUplink{d, false}, forcedUplink{d, false})
+						forcedUps = append(forcedUps, forcedUplink{d, true, false}, forcedUplink{d, false, false}, forcedUplink{d, false, false})
+					} else if !overLong && forcedUp == nil && m.ack && d.joined && len(forcedUps) == 0 && r.Intn(3) == 0 {
+						// a confirmed message of ordinary size, an unconfirmed one right behind it, and two uplinks in a
+						// row: each message leaves with its own type
+						forcedUps = append(forcedUps, forcedUplink{d, false, true}, forcedUplink{d, false, false}, forcedUplink{d, false, false})
 					}
 					if m.created != h.ts {
 						c.res.Count("submit=shared-creation-stamp")
